@@ -77,10 +77,47 @@ def run(tier, seed, open_findings):
     res = pmap(eval_doc, jobs, chunk=1)
     fails = [dict(case=dict(doc=r['doc'], ver=r['ver'], fault=b[0]), observed=b[1], required='invalid; unique path to error.elem; an error at the node or its parent; none outside chain/subtree') for r in res for b in r['bad']]
     cases = sum(r['cases'] for r in res)
-    return [result('C19.single_fault_location', f'{len(docs)} valid documents x every node x {len(FAULTS)} single-node faults x 2 classes', cases, fails, samples=[dict(doc=docs[0][:160], fault='bad_text')], distinct=cases)]
+    return [run_all11(), result('C19.single_fault_location', f'{len(docs)} valid documents x every node x {len(FAULTS)} single-node faults x 2 classes', cases, fails, samples=[dict(doc=docs[0][:160], fault='bad_text')], distinct=cases)]
+
+
+ALL11 = '<xs:schema xmlns:xs="http://www.w3.org/2001/XMLSchema"><xs:element name="r"><xs:complexType><xs:sequence><xs:element name="g" maxOccurs="unbounded"><xs:complexType><xs:all>' \
+        '<xs:element name="a" minOccurs="2" maxOccurs="3"/><xs:element name="b" minOccurs="0" maxOccurs="2"/><xs:element name="c"/></xs:all></xs:complexType></xs:element></xs:sequence></xs:complexType></xs:element></xs:schema>'
+
+
+def eval_all11(doc):
+    """XSD 1.1 all group whose particles repeat: every removal of a required occurrence from a valid document is reported, at the parent or the node"""
+    import xmlschema, copy
+    from xml.etree import ElementTree as ET
+    s = _S.get('all11') or _S.setdefault('all11', xmlschema.XMLSchema11(ALL11))
+    root = ET.fromstring(doc); bad = []; n = 0
+    if not s.is_valid(root): return dict(doc=doc, cases=0, bad=[('generator', 'base document invalid')])
+    for gi, g in enumerate(root):
+        for ci, c in enumerate(g):
+            left = sum(1 for x in g if x.tag == c.tag) - 1
+            need = {'a': 2, 'b': 0, 'c': 1}[c.tag]
+            if left >= need: continue
+            n += 1
+            r2 = copy.deepcopy(root); g2 = r2[gi]; g2.remove(g2[ci])
+            errs = list(s.iter_errors(r2))
+            if not errs: bad.append(('drop_child', f'g[{gi + 1}]: removing <{c.tag}> leaves {left} (minOccurs {need}): not reported'))
+            elif not any(e.elem is g2 for e in errs): bad.append(('drop_child', f'g[{gi + 1}]: no error located at the parent of the missing <{c.tag}>: {[e.path for e in errs][:2]}'))
+    return dict(doc=doc, cases=n, bad=bad)
+
+
+def run_all11():
+    import itertools
+    docs = []
+    for word in ('aac', 'aca', 'caa', 'abac', 'aaac', 'abcab', 'baacb'):
+        docs.append('<r><g>' + ''.join(f'<{c}/>' for c in word) + '</g><g><a/><c/><a/></g></r>')
+    res = [eval_all11(d) for d in docs]
+    fails = [dict(case=dict(all11=True, doc=r['doc']), observed=b[1], required='the missing occurrence is reported at its parent') for r in res for b in r['bad']]
+    cases = sum(r['cases'] for r in res)
+    return result('C19.xsd11_all_missing_occurrence', f'{len(docs)} documents of an XSD 1.1 all group with repeating particles x every removal of a required occurrence', cases, fails, exhaustive=True, samples=[dict(doc=docs[0])], distinct=cases)
 
 
 def replay(check_name, case):
+    if case.get('all11'):
+        r = eval_all11(case['doc']); return dict(ok=not r['bad'], observed=r['bad'][:2], required='the missing occurrence is reported at its parent')
     r = eval_doc((case['ver'], case['doc']))
     mine = [b for b in r['bad'] if b[0] == case.get('fault')] or r['bad']
     return dict(ok=not mine, observed=mine[:2], required='error located at the damaged node')
